@@ -262,8 +262,106 @@ func wrapperProbe(sf *ssa.Function, suffix string) []string {
 			}
 		}
 	}
+	// value flow inside the builder: forward through phis, stores into local cells and loads of them, wrapper calls
+	isWrapper := func(c *ssa.Call) bool {
+		if sc := c.Call.StaticCallee(); sc != nil {
+			n := idOf(sc).name
+			for _, w := range want {
+				if n == w.callee {
+					return true
+				}
+			}
+		}
+		return false
+	}
+	var forward func(v ssa.Value, seen map[ssa.Value]bool) bool // reaches the per-field plan (closure binding, struct field, append)
+	forward = func(v ssa.Value, seen map[ssa.Value]bool) bool {
+		if seen[v] {
+			return false
+		}
+		seen[v] = true
+		refs := v.Referrers()
+		if refs == nil {
+			return false
+		}
+		for _, ref := range *refs {
+			switch x := ref.(type) {
+			case *ssa.Phi:
+				if forward(x, seen) {
+					return true
+				}
+			case *ssa.Store:
+				if x.Val != v {
+					continue
+				}
+				switch a := x.Addr.(type) {
+				case *ssa.Alloc:
+					// a local cell: captured by a closure, or loaded again
+					for _, r2 := range *a.Referrers() {
+						switch y := r2.(type) {
+						case *ssa.MakeClosure:
+							return true
+						case *ssa.UnOp:
+							if forward(y, seen) {
+								return true
+							}
+						}
+					}
+				case *ssa.FieldAddr, *ssa.IndexAddr:
+					return true // stored into the plan step (struct literal / slice element)
+				}
+			case *ssa.MakeClosure:
+				return true
+			case *ssa.Call:
+				if isWrapper(x) {
+					if forward(x, seen) {
+						return true
+					}
+				}
+			case *ssa.MakeInterface, *ssa.ChangeType:
+				if forward(x.(ssa.Value), seen) {
+					return true
+				}
+			}
+		}
+		return false
+	}
+	reachesPlan := func(c *ssa.Call) bool { return forward(c, map[ssa.Value]bool{}) }
+	var fromPlan func(v ssa.Value) bool // derives from the plan looked up for the field type (or from an earlier wrapper)
+	seenBack := map[ssa.Value]bool{}
+	fromPlan = func(v ssa.Value) bool {
+		if seenBack[v] {
+			return false
+		}
+		seenBack[v] = true
+		defer delete(seenBack, v)
+		switch x := v.(type) {
+		case *ssa.Call:
+			if isWrapper(x) {
+				return true
+			}
+			if sc := x.Call.StaticCallee(); sc != nil {
+				n := idOf(sc).name
+				return n == "encodeFuncFor" || n == "decodeFuncFor"
+			}
+		case *ssa.Phi:
+			for _, e := range x.Edges {
+				if fromPlan(e) {
+					return true
+				}
+			}
+		case *ssa.UnOp:
+			if a, ok := x.X.(*ssa.Alloc); ok {
+				for _, r2 := range *a.Referrers() {
+					if st, ok := r2.(*ssa.Store); ok && st.Addr == ssa.Value(a) && fromPlan(st.Val) {
+						return true
+					}
+				}
+			}
+		}
+		return false
+	}
 	var prev *ssa.Call
-	var cell ssa.Value
 	for _, w := range want {
 		cs := calls[w.callee]
 		if len(cs) != 1 {
@@ -299,43 +397,21 @@ func wrapperProbe(sf *ssa.Function, suffix string) []string {
 			sort.Strings(other)
 			problems = append(problems, fmt.Sprintf("model probe failed: in %s the wrapper %s is not applied exactly when fieldInfo.%s is set (own flag tested: %v; also conditioned on: %v): a field carrying several options loses one of them", fnKey(sf), w.callee, w.flag, own, other))
 		}
-		// chaining: the function argument is a load of the cell, the result is stored back into it
-		var argCell, resCell ssa.Value
+		// chaining: the wrapper takes the current field function and its result is the one that goes on (to the
+		// next wrapper and finally into the per-field plan), whatever carries it (captured cell, local, struct field)
+		argOK := false
 		for _, a := range c.Call.Args {
-			if u, ok := a.(*ssa.UnOp); ok && u.Op == token.MUL {
-				if _, isF := u.Type().Underlying().(*types.Signature); isF {
-					argCell = u.X
-				}
+			if _, isF := a.Type().Underlying().(*types.Signature); isF && fromPlan(a) {
+				argOK = true
 			}
 		}
-		for _, ref := range *c.Referrers() {
-			if st, ok := ref.(*ssa.Store); ok && st.Val == ssa.Value(c) {
-				resCell = st.Addr
-			}
-		}
-		if argCell == nil || resCell == nil || argCell != resCell || (cell != nil && cell != argCell) {
+		if !argOK || !reachesPlan(c) {
 			problems = append(problems, fmt.Sprintf("model probe failed: in %s the wrapper %s does not wrap the current field function and replace it (the wrappers must chain on one variable)", fnKey(sf), w.callee))
-		}
-		if cell == nil {
-			cell = argCell
 		}
 		if prev != nil && !(prev.Pos() < c.Pos()) {
 			problems = append(problems, fmt.Sprintf("model probe failed: in %s the wrappers are not applied in the order omitempty, version range, set-version", fnKey(sf)))
 		}
 		prev = c
-	}
-	// the cell is captured by the per-field closure
-	if cell != nil {
-		captured := false
-		for _, ref := range *cell.Referrers() {
-			if mc, ok := ref.(*ssa.MakeClosure); ok {
-				_ = mc
-				captured = true
-			}
-		}
-		if !captured {
-			problems = append(problems, fmt.Sprintf("model probe failed: in %s the wrapped field function is not the one the per-field plan closure uses", fnKey(sf)))
-		}
 	}
 	return problems
 }
